@@ -38,9 +38,9 @@ type plan struct {
 
 var plans = map[string]*plan{
 	"C02": {Race: false, Quick: 330, Thorough: 6000, Procs: 16, XProc: 24, Level: "exploration",
-		Rule: "a case is one workload (packages x selection x parameters x -concurrency, drawn from the seed) executed under 4 (quick) or 6 (thorough) (map policy, schedule) variants; distinct = distinct hash of (flags, visits, applied map permutations, hand-over sequence); non-trivial = at least one applied permutation differing from canonical at a map site with >= 2 entries, or a switch between two live checker tasks"},
+		Rule: "a case is one workload (packages x selection x parameters x -concurrency, drawn from the seed) executed under 5 (quick) or 7 (thorough) variants: (map policy, schedule) pairs, one of them over the twin corpus whose files were registered in the token.FileSet in another seeded order; distinct = distinct hash of (flags, visits, applied map permutations, hand-over sequence); non-trivial = at least one applied permutation differing from canonical at a map site with >= 2 entries, or a switch between two live checker tasks"},
 	"C03": {Race: false, Quick: 800, Thorough: 12000, Procs: 16, XProc: 16, Level: "exploration",
-		Rule: "a case is one history of package visits (1..12 quick, 1..40 thorough; permuted/subset/repeated files) applied to one long-lived CLI program; distinct = distinct hash of (flags, history, schedule); non-trivial = history length >= 2 with >= 1 diagnostic printed after the first visit"},
+		Rule: "a case is one history of package visits (1..12 quick, 1..40 thorough; permuted/subset/repeated files, permuted declarations) applied to one long-lived CLI program and compared, per file, with what a FRESH program prints for that file alone (reference obtained through the same front-end over an independently loaded twin corpus); every fifth case is an analyzer history; plus the command-line leg: k packages named together / in another order / in two commands / alone, as real processes of the shipped binaries, must print the same lines per package; distinct = distinct hash of (flags, history, schedule) or (binary, packages, order, split, flags); non-trivial = history length >= 2 with >= 1 diagnostic printed after the first visit, or a grouping case with >= 1 diagnostic"},
 	"C04": {Race: true, Quick: 360, Thorough: 6000, Procs: 16, XProc: 16, Level: "exploration",
 		Rule: "a case is one seeded schedule of the CLI's checkFile (N checker goroutines, semaphore, barrier) or of K parallel analyzer passes, in a -race build whose context switches are invisible to the race detector; distinct = distinct hash of the hand-over sequence (from,to,site) plus workload; non-trivial = at least one switch that suspends a started, unfinished checker task in favour of another checker task"},
 	"C05": {Race: false, Quick: 420, Thorough: 6000, Procs: 16, XProc: 12, Level: "exploration",
@@ -223,6 +223,30 @@ func (c *checkCtx) check() int {
 		bt.Results = append(bt.Results, rr...)
 		total += len(rr)
 	}
+	if c.ID == "C03" {
+		// command-line leg: order and grouping of the packages named on the command line, real processes
+		if err := buildFrontends(c.Build); err != nil {
+			fmt.Fprintln(os.Stderr, "gcsim: build trouble:", err)
+			return 2
+		}
+		n := 30
+		if c.Tier == "thorough" {
+			n = 400
+		}
+		if s := os.Getenv("GCSIM_FE_RUNS"); s != "" {
+			n, _ = strconv.Atoi(s)
+		}
+		cases := append([]groupCase{knownCollisionCase()}, genGroupCases(c.Seed, n)...)
+		t1 := time.Now()
+		gr := c.runGroupCases(cases, groupIndexBase)
+		np := 0
+		for _, r := range gr {
+			np += int(r.Stats["real_processes"])
+		}
+		fmt.Printf("gcsim: %d command-line grouping cases (%d real processes of the shipped binaries) in %.1fs\n", len(cases), np, time.Since(t1).Seconds())
+		bt.Results = append(bt.Results, gr...)
+		total += len(gr)
+	}
 	if c.ID == "C19" {
 		// second engine: the real front-end binaries on faulted configurations and workspaces
 		if err := buildFrontends(c.Build); err != nil {
@@ -290,6 +314,12 @@ func (c *checkCtx) check() int {
 			for _, r := range c.runRepeatCases([]repeatCase{rc}, rp.Run.Index) {
 				rp.Confirmed = sameViolation(r, rp.Vio)
 			}
+		} else if rp.Run.Config != nil && rp.Run.Config.Kind == "frontend-grouping" {
+			var gc groupCase
+			json.Unmarshal(rp.Run.Config.Extra, &gc)
+			for _, r := range c.runGroupCases([]groupCase{gc}, rp.Run.Index) {
+				rp.Confirmed = sameViolation(r, rp.Vio)
+			}
 		} else if rp.Run.Config != nil && rp.Run.Config.Kind == "frontend-process" {
 			// one real process pair is already minimal; confirm by running it again
 			var fc feCase
@@ -341,9 +371,11 @@ func (c *checkCtx) crossProcess(bt *batch) *xprocResult {
 	}
 	var idxs []int
 	digest := map[int]string{}
+	dparts := map[int][]string{}
 	for _, r := range bt.Results {
 		if r.Digest != "" && r.Verdict == "ok" {
 			digest[r.Index] = r.Digest
+			dparts[r.Index] = r.DigestParts
 		}
 	}
 	var cands []int
@@ -428,7 +460,7 @@ func (c *checkCtx) crossProcess(bt *batch) *xprocResult {
 					Detail: fmt.Sprintf("run %d: the same seed produced a different observable digest in a fresh process at GOMAXPROCS=%d (%s vs %s); replay is statistical", rr.Index, r.gmp, rr.Digest, digest[rr.Index])}}
 				xr.extra = append(xr.extra, rr)
 			} else {
-				xr.harness = fmt.Sprintf("run %d is not a deterministic function of the seed: digest %s at GOMAXPROCS=%d vs %s in the main batch", rr.Index, rr.Digest, r.gmp, digest[rr.Index])
+				xr.harness = fmt.Sprintf("run %d is not a deterministic function of the seed: digest %s at GOMAXPROCS=%d vs %s in the main batch (parts %v vs %v)", rr.Index, rr.Digest, r.gmp, digest[rr.Index], rr.DigestParts, dparts[rr.Index])
 			}
 		}
 	}
@@ -493,6 +525,24 @@ func (c *checkCtx) replay(path string) int {
 			}
 		}
 		fmt.Printf("gcsim: replay of %s (24 processes) did not reproduce class %s on this tree\n", path, rf.Violation.Class)
+		return 0
+	}
+	if rf.Config.Kind == "frontend-grouping" {
+		if err := buildFrontends(c.Build); err != nil {
+			fmt.Fprintln(os.Stderr, "gcsim: build trouble:", err)
+			return 2
+		}
+		var gc groupCase
+		json.Unmarshal(rf.Config.Extra, &gc)
+		for _, r := range c.runGroupCases([]groupCase{gc}, 0) {
+			for _, v := range r.Violations {
+				if v.Class == rf.Violation.Class {
+					fmt.Printf("VIOLATION property=%s replay=%s\n  reproduced: class=%s identity=%s\n  %s\n", c.ID, path, v.Class, v.Identity, short(v.Detail, 1500))
+					return 1
+				}
+			}
+		}
+		fmt.Printf("gcsim: replay of %s did not reproduce class %s on this tree\n", path, rf.Violation.Class)
 		return 0
 	}
 	if rf.Config.Kind == "frontend-process" {
